@@ -39,6 +39,7 @@ RES_INV = {v: k for k, v in RES.items()}
 GATE_ARRIVE_TIMEOUT = float(os.environ.get("VERIF_GATE_ARRIVE", "1.0"))
 STALL_TIMEOUT = float(os.environ.get("VERIF_STALL", "4.0"))
 HANG_TIMEOUT = float(os.environ.get("VERIF_HANG", "8.0"))
+MAX_EVENTS = 3000  # per execution; the largest legitimate executions here produce a few hundred
 
 _NONCE = itertools.count(1)
 
@@ -112,6 +113,8 @@ class Controller:
         self.recv = {}
         self.dispatched = {}
         self.started_async = set()
+        self.op_events = 0
+        self.in_call = False
         self.sched_thread = None
         self.invoker = threading.get_ident()
         self.open_all = False
@@ -128,6 +131,7 @@ class Controller:
             self.gates, self.at_gate, self.released = {}, set(), set()
             self.exited, self.entered, self.recv, self.dispatched = {}, {}, {}, {}
             self.started_async = set()
+            self.op_events = 0
             self.open_all = False
             self.helper = None
             self.in_wait = None
@@ -137,7 +141,18 @@ class Controller:
         with self.cv:
             self.events.append({"e": e, "n": n, "k": k, "m": m, "s": sorted(s), "b": bool(b), "r": list(r)})
             self.last_event = time.monotonic()
+            self.op_events += 1
             self.cv.notify_all()
+            runaway = self.op_events == MAX_EVENTS and self.in_call
+        if runaway:
+            # the scheduler keeps producing events without ever finishing: a spin (C09), not progress
+            with self.cv:
+                self.events.append({"e": "hang", "n": 0, "k": "runaway-events", "m": "", "s": [], "b": False, "r": []})
+            self.release_everything()
+            if threading.get_ident() == self.sched_thread:
+                raise HarnessAbort("hang: runaway event stream")
+        elif self.in_call and self.op_events > MAX_EVENTS and threading.get_ident() == self.sched_thread:
+            raise HarnessAbort("hang: runaway event stream")
 
     def ix(self, id_):
         return self.idx_of.get(id_, 0)
@@ -546,16 +561,20 @@ def run_history(cfg, script=(), max_subset=None, max_bg=None):
             ctl.reset_exec()
             ctl.log("op", k=op)
             raised = False
+            ctl.in_call = True
             try:
                 if op == "setup":
                     asyncio.run(d.setup()) if is_async else d.setup()
                 else:
                     asyncio.run(d(*callargs)) if is_async else d(*callargs)
+                ctl.in_call = False
                 ctl.log("return")
             except _Hang:
+                ctl.in_call = False
                 raised = True
                 ctl.log("raise", k="hang")
             except BaseException as exc:  # noqa: BLE001
+                ctl.in_call = False
                 raised = True
                 ev = classify_exception(exc, ctl, cfg)
                 with ctl.cv:
